@@ -1,4 +1,5 @@
 import Lean.Data.Json
+import AdeuModel.Model.Heuristic
 import AdeuModel.Model.Str
 import AdeuModel.Model.Diff
 import AdeuModel.Model.Trim
@@ -206,6 +207,31 @@ def handleApplyIndexed (j : Json) : Except String Json := do
   let (s1, ap, sk) := Doc.applyEditsIndexed s0 edits
   pure <| Json.mkObj [("doc", DriverDoc.docFullJ s1.doc), ("applied", toJson ap), ("skipped", toJson sk)]
 
+/-- `apply_edits` for a mixed batch: edits with "index" are addressed by offset, the others are searched;
+"fz_raw" / "fz_clean" carry the recorded result of the non-literal matching stages -/
+def optPair (e : Json) (k : String) : Option (Nat × Nat) :=
+  match e.getObjVal? k with
+  | .ok (Json.arr a) =>
+    match a[0]?, a[1]? with
+    | some x, some y => match x.getNat?, y.getNat? with
+      | .ok p, .ok q => some (p, q)
+      | _, _ => none
+    | _, _ => none
+  | _ => none
+
+def handleApplyEdits (j : Json) : Except String Json := do
+  let d0 ← DriverDoc.parseDoc (← j.getObjVal? "doc")
+  let author ← getStr j "author"
+  let edits ← (← j.getObjValAs? (Array Json) "edits").toList.mapM fun e => do
+    let idx : Option Nat := match e.getObjVal? "index" with | .ok v => v.getNat?.toOption | _ => none
+    let t ← getStr e "target"
+    let n ← getStr e "new"
+    let c := match e.getObjVal? "comment" with | .ok (Json.str x) => some x.toList | _ => none
+    pure ({ index := idx, target := t, new := n, comment := c, fzRaw := optPair e "fz_raw", fzClean := optPair e "fz_clean" } : Doc.HEdit)
+  let s0 := Doc.Sess.open d0 author "DATE".toList
+  let (s1, ap, sk) := Doc.applyEdits s0 edits
+  pure <| Json.mkObj [("doc", DriverDoc.docFullJ s1.doc), ("applied", toJson ap), ("skipped", toJson sk)]
+
 def handleReview (j : Json) : Except String Json := do
   let d0 ← DriverDoc.parseDoc (← j.getObjVal? "doc")
   let author ← getStr j "author"
@@ -365,6 +391,7 @@ def handle (j : Json) : Except String Json := do
   | "extract" => handleExtract j
   | "normalize" => handleNormalize j
   | "apply_indexed" => handleApplyIndexed j
+  | "apply_edits" => handleApplyEdits j
   | "review" => handleReview j
   | "diff_apply" => handleDiffApply j
   | "preview" => handlePreview j
